@@ -188,9 +188,11 @@ CLAIMED['C10'] = (
     '404. PlayReady / ClearKey / Marlin.generate_manifest_context create the moov / cenc / pro hooks exactly for the requested '
     'locations (Marlin none; PlayReady cenc only above version 1.0). PlayReady.generate_pssh: RAW_SYSTEM_ID, version 0 without key '
     'ids for fewer than two keys, version 1 with every key id otherwise, payload = the PRO; ClearKey.generate_pssh: common system '
-    'id, version 1, every key id, no payload. The pssh box encodes and parses back identically (group mp4).',
+    'id, version 1, every key id, no payload. The pssh box encodes and parses back identically (group mp4). DrmContext: for seven '
+    'selections (none, each system, pairs, all three) the constructor builds one context per selected system through that system\'s own '
+    'class, with its own locations, option group and <name>_la_url parameter, and iteration yields them in name order, first to last.',
     'Trusted / not covered: byte identity of the untouched boxes (rests on Mp4Atom.encode re-emitting unmodified boxes), size '
-    'propagation of append / remove, DrmContext construction and iteration order (assumed name order), load_fragment, the PRO '
+    'propagation of append / remove, parsing of the drm option text into the selection (C16 bounded), load_fragment, the PRO '
     'bytes (C11). The statement\'s byte-level diff of a whole response is NOT decided - only these ingredients are.',
     'contract-based deductive verification (AST->VC generator, z3 + cvc5), native replay (source extraction for the handler)')
 
